@@ -35,6 +35,8 @@ def make_doc(c):
     elif v == "dup-ids":
         if n == 1:
             s2.new_id(s1.id)
+        elif n == 4:
+            deep.new_id(doc.id)
         elif n == 2:
             sub1.new_id(s1.id)
         else:
@@ -88,6 +90,8 @@ def replay(c):
                     kw["local_style"] = True
                 elif c["opt"] == "custom_template":
                     kw["custom_template"] = TEMPLATE
+                elif c["opt"] == "template_tuple":
+                    kw["custom_template"] = (TEMPLATE, "second piece")
                 e = c["entry"]
                 if e == "odml.save":
                     if rdf:
